@@ -114,7 +114,7 @@ def run(ck, tier, seed):
                                  "states": v["states"], "accepted": v["accepted"]})
         if not v["accepted"] and not bad:
             at = v["reject_at"]
-            keep = os.path.join(vf.ROOT, "replay", "C08-%s-%d.ndjson" % (mode, seed))
+            keep = os.path.join(vf.out_dir(), "replay", "C08-%s-%d.ndjson" % (mode, seed))
             os.makedirs(os.path.dirname(keep), exist_ok=True)
             # keep the session that was rejected
             start = max(i for i, e in enumerate(lines[:at]) if e["e"] == "reset") if at else 0
